@@ -119,7 +119,7 @@ def per_index_frames(out, mc, pending):
                     may.add(int(m.group(1)))
         # must-mutate set of clear: intersection over its paths
         try:
-            ex = symex.Executor(fns, max_visits=3)
+            ex = symex.Executor(fns, max_visits=symex.visits(3))
             paths = ex.run(clr[0])
         except symex.Unsupported as e:
             fails.append("%s::clear: encoding gap %s" % (ty, str(e)[:100]))
@@ -244,7 +244,7 @@ def remove_frames(out, mc, pending):
             continue
         may = _may_mutate(rem[0], meth, ty)
         try:
-            ex = symex.Executor(fns_cr, max_visits=3)
+            ex = symex.Executor(fns_cr, max_visits=symex.visits(3))
             paths = ex.run(clr[0])
         except symex.Unsupported as e:
             fails.append("%s::clear: encoding gap %s" % (ty, str(e)[:100]))
@@ -299,7 +299,7 @@ def analysis_glue(out, mc, which, pending):
             ob.status = "inconclusive"
             ob.detail = "remove_file_by_uri not found"
             return
-        ex = symex.Executor(fns, max_visits=2)
+        ex = symex.Executor(fns, max_visits=symex.visits(2))
         for p in ex.run(fn[0]):
             if p.kind != "return":
                 fails.append("path kind %s" % p.kind)
@@ -323,7 +323,7 @@ def analysis_glue(out, mc, which, pending):
                     fails.append("removed file id is not returned")
         cf = [f for f in fns if re.search(r"compilation::<impl[^>]*>::remove_index$", f.name)]
         if len(cf) == 1:
-            for p in symex.Executor(fns, max_visits=2).run(cf[0]):
+            for p in symex.Executor(fns, max_visits=symex.visits(2)).run(cf[0]):
                 if p.kind == "return" and not [e for e in p.trace if re.search(r"DbIndex::remove_index$", e.get("short", ""))]:
                     fails.append("LuaCompilation::remove_index does not forward to DbIndex::remove_index")
         else:
@@ -340,7 +340,7 @@ def analysis_glue(out, mc, which, pending):
             ob.status = "inconclusive"
             ob.detail = "reindex not found"
             return
-        ex = symex.Executor(fns, max_visits=2)
+        ex = symex.Executor(fns, max_visits=symex.visits(2))
         for p in ex.run(fn[0]):
             if p.kind != "return":
                 fails.append("path kind %s" % p.kind)
@@ -360,7 +360,7 @@ def analysis_glue(out, mc, which, pending):
                 fails.append("update_index does not receive the VFS's list of all file ids")
         cf = [f for f in fns if re.search(r"compilation::<impl[^>]*>::clear_index$", f.name)]
         if len(cf) == 1:
-            for p in symex.Executor(fns, max_visits=2).run(cf[0]):
+            for p in symex.Executor(fns, max_visits=symex.visits(2)).run(cf[0]):
                 if p.kind == "return" and not [e for e in p.trace if re.search(r"LuaIndex>::clear$|DbIndex::clear$", e["callee"])]:
                     fails.append("LuaCompilation::clear_index does not clear the DbIndex")
         else:
@@ -458,7 +458,7 @@ def remove_prunes(out, mc, pending):
         for c in clos:
             if not any(re.search(r"FileId as PartialEq>::(eq|ne)", b.term or "") for b in c.blocks.values()):
                 continue
-            ex = symex.Executor(meth, max_visits=2)
+            ex = symex.Executor(meth, max_visits=symex.visits(2))
             _install_fileid_eq(ex)
             paths = ex.run(c)
             ok = len(paths) == 1 and paths[0].kind == "return" and isinstance(paths[0].ret, symex.BoolV)
@@ -496,7 +496,7 @@ def remove_prunes(out, mc, pending):
         detail[ty] = {"verified_predicates": sorted(v.split("::remove")[-1] for v in verified), "shared_tables": [n for _, n, _ in needs]}
         if not needs:
             continue
-        ex = symex.Executor(meth, max_visits=2)
+        ex = symex.Executor(meth, max_visits=symex.visits(2))
         paths = ex.run(rem[0])
         pruned = set()
         for p in paths:
@@ -544,7 +544,7 @@ def update_glue(out, mc, pending):
         if len(fn) != 1:
             fails.append("%s: %d candidates" % (nm, len(fn)))
             continue
-        ex = symex.Executor(fns, max_visits=2)
+        ex = symex.Executor(fns, max_visits=symex.visits(2))
         kinds = set()
         for p in ex.run(fn[0]):
             if p.kind != "return":
